@@ -12,7 +12,7 @@ BASE = dict(
     Principals='{"u1", "admin"}', AdminOps="TRUE", ResumeScales='{"same"}', StartHalted="FALSE",
     SamePrefix="FALSE", Extras='{"wrongsender"}', MaxTime="6", MaxBatches="2", MaxSeq="3", MaxN="6", MaxPk="3", EmitTests="FALSE",
 )
-INVS = "P_C01 P_C01b P_C02 P_C03 P_C05 P_C06 P_C07 P_C11 P_C16 P_NonNeg"
+INVS = "P_C01 P_C01b P_C01c P_C02 P_C03 P_C05 P_C06 P_C07 P_C11 P_C16 P_NonNeg"
 PROPS = "A_C06 A_C04 A_C10"
 
 CFGS = {
@@ -33,16 +33,18 @@ CFGS = {
     # the admin changes the batch period while the batch is open
     "period_q": dict(Extras='{"period"}', RewardAmts="{}", RcvKinds='{"self"}', Returns='{"exact"}', Principals='{"u1"}', MaxTime="7"),
     # the admin corrects the totals on resume (down / up): the rates posted are those of the NEW totals
-    "resume_q": dict(ResumeScales='{"same", "down", "up"}', UnstakeAmts="{}", RewardAmts="{2}", RcvKinds='{"self"}', Returns="{}", MaxBatches="1",
-                     MaxN="9", MaxSeq="3", MaxPk="3", MaxTime="0", Principals='{"admin"}', Extras="{}"),
+    "resume_q": dict(ResumeScales='{"same", "down", "up", "rewards0"}', UnstakeAmts="{}", RewardAmts="{2}", RcvKinds='{"self"}', Returns="{}", MaxBatches="1",
+                     MaxN="9", MaxSeq="3", MaxPk="3", MaxTime="0", Principals='{"admin"}', Extras='{"unoracle"}'),
     # IBC faults WHILE the contract holds other money (a returned batch waiting to be withdrawn): an over-sized re-send is
     # then covered by somebody else's funds instead of being stopped by the bank
     "ibc_hold_q": dict(Outcomes='{"ok", "err"}', Returns='{"exact"}', UnstakeAmts="{3}", RewardAmts="{}", RcvKinds='{"self"}', MaxBatches="2", MaxN="6",
                        MaxSeq="3", MaxPk="2", MaxTime="5", Principals='{"admin"}', Extras="{}"),
     # a redemption rate BELOW one (the admin corrected the staked total downwards): unbond amounts that round to zero or, with
     # the wrong rounding, eat the whole staked total while LST is still outstanding
-    "downrate_q": dict(ResumeScales='{"same", "down"}', UnstakeAmts="{1, 2}", RewardAmts="{}", RcvKinds='{"self"}', Returns='{"exact"}', MaxBatches="2",
-                       MaxN="6", MaxSeq="3", MaxPk="2", MaxTime="6", Principals='{"admin", "u1"}', Extras="{}"),
+    "downrate_q": dict(Users='{"u1", "u2"}', ResumeScales='{"same", "down"}', UnstakeAmts="{1, 2}", RewardAmts="{}", RcvKinds='{"self"}', Returns="{}", MaxBatches="2",
+                       MaxN="6", MaxSeq="2", MaxPk="2", MaxTime="3", Principals='{"admin"}', Extras="{}"),
+    # the operator returns MORE than expected (the surplus belongs to the requesters of that batch)
+    "long_q": dict(Returns='{"exact", "long"}', RewardAmts="{}", RcvKinds='{"self"}', Principals='{"u1"}', AdminOps="FALSE", MaxN="7", Extras="{}"),
     # forced recovery of packets that are still in flight, then their late callbacks
     "ibc_force_q": dict(Extras='{"forceinflight"}', Outcomes='{"ok", "err", "timeout"}', Returns="{}", UnstakeAmts="{}", RcvKinds='{"self", "native"}',
                         RewardAmts="{}", MaxBatches="1", MaxN="6", MaxSeq="4", MaxPk="3", MaxTime="0", Principals='{"admin", "u1"}'),
@@ -74,7 +76,7 @@ CFGS = {
     "gate_q": dict(Extras='{"wrongsender", "matrix", "direct", "upmon", "demonitor"}', StartHalted="TRUE",
                    Principals='{"u1", "admin", "mon1", "admin2", "contract", "hook|channel-1|staker", "hook|channel-1|collector"}', Returns='{"exact"}',
                    MaxN="6", MaxSeq="3", MaxBatches="2", MaxPk="2", TreasuryAddr='"treasury"', RcvKinds='{"self"}', MaxTime="5",
-                   ResumeScales='{"same", "zerolst"}'),
+                   ResumeScales='{"same", "zerolst", "rewards0"}'),
     # the same with one stake at most: used where the gate is not the property's own subject
     "gates_q": dict(Extras='{"wrongsender", "matrix", "direct"}', StartHalted="TRUE",
                     Principals='{"u1", "admin", "mon1", "admin2", "contract", "hook|channel-1|staker"}', Returns='{"exact"}',
